@@ -102,17 +102,17 @@ theorem rebalance_tightM (t : Tree K E) (steps : List RbStep) (h : TightMT none 
 end
 
 section
-variable (p : Params) (pagesize hdr leafHdr branchHdr bmSize : Nat)
+variable {E : Type} (p : Params) (pagesize hdr leafHdr branchHdr : Nat) (esz : Bytes × E → Nat)
 
 /-- the pieces of a node, each tight under its own key; the first under the node's lower bound when the
 node is on the leftmost spine -/
-def PiecesTight (lo : Option Bytes) : List (Bytes × Tree Bytes Ent) → Prop
+def PiecesTight (lo : Option Bytes) : List (Bytes × Tree Bytes E) → Prop
   | [] => True
   | (k, t) :: rest => TightT (sepLo lo k) t ∧ ∀ q ∈ rest, TightT (some q.1) q.2
 
 /-! helpers for T4 -/
 
-theorem piecesTight_of_own (lo : Option Bytes) (l : List (Bytes × Tree Bytes Ent))
+theorem piecesTight_of_own (lo : Option Bytes) (l : List (Bytes × Tree Bytes E))
     (h : ∀ q ∈ l, TightT (some q.1) q.2) : PiecesTight lo l := by
   cases l with
   | nil => trivial
@@ -120,7 +120,7 @@ theorem piecesTight_of_own (lo : Option Bytes) (l : List (Bytes × Tree Bytes En
     obtain ⟨k, t⟩ := a
     exact ⟨(h (k, t) List.mem_cons_self).weaken_sepLo lo, fun q hq => h q (List.mem_cons_of_mem _ hq)⟩
 
-theorem piecesTight_own_of_some (l : Bytes) (ps : List (Bytes × Tree Bytes Ent))
+theorem piecesTight_own_of_some (l : Bytes) (ps : List (Bytes × Tree Bytes E))
     (h : PiecesTight (some l) ps) : ∀ q ∈ ps, TightT (some q.1) q.2 := by
   cases ps with
   | nil => intro q hq; cases hq
@@ -131,7 +131,7 @@ theorem piecesTight_own_of_some (l : Bytes) (ps : List (Bytes × Tree Bytes Ent)
     · exact h.1
     · exact h.2 q hq
 
-theorem piecesTight_append (lo : Option Bytes) (a b : List (Bytes × Tree Bytes Ent))
+theorem piecesTight_append (lo : Option Bytes) (a b : List (Bytes × Tree Bytes E))
     (ha : PiecesTight lo a) (hb : ∀ q ∈ b, TightT (some q.1) q.2) : PiecesTight lo (a ++ b) := by
   cases a with
   | nil => exact piecesTight_of_own lo b hb
@@ -144,8 +144,8 @@ theorem piecesTight_append (lo : Option Bytes) (a b : List (Bytes × Tree Bytes 
     · exact hb q hq
 
 /-- entries each tight under its own key make a branch that is tight under its first key -/
-theorem tightF_ofList (lo : Option Bytes) (k : Bytes) (t : Tree Bytes Ent) :
-    ∀ (r : List (Bytes × Tree Bytes Ent)), TightT lo t → (∀ q ∈ r, TightT (some q.1) q.2) →
+theorem tightF_ofList (lo : Option Bytes) (k : Bytes) (t : Tree Bytes E) :
+    ∀ (r : List (Bytes × Tree Bytes E)), TightT lo t → (∀ q ∈ r, TightT (some q.1) q.2) →
       TightF lo k t (Forest.ofList r)
   | [], ht, _ => TightF.last _ _ _ ht
   | (k', t') :: r', ht, hr =>
@@ -154,7 +154,7 @@ theorem tightF_ofList (lo : Option Bytes) (k : Bytes) (t : Tree Bytes Ent) :
         (fun q hq => hr q (List.mem_cons_of_mem _ hq)))
 
 /-- a written branch piece, keyed by its first key -/
-theorem piece_tight (lo : Option Bytes) (key : Bytes) (c : List (Bytes × Tree Bytes Ent))
+theorem piece_tight (lo : Option Bytes) (key : Bytes) (c : List (Bytes × Tree Bytes E))
     (h : PiecesTight lo c) : TightT (sepLo lo (firstKeyOr key c)) (.branch 0 (Forest.ofList c)) := by
   cases c with
   | nil => exact TightT.emptyBranch _ _
@@ -169,7 +169,7 @@ theorem piece_tight (lo : Option Bytes) (key : Bytes) (c : List (Bytes × Tree B
       exact tightF_ofList _ k t r h.1 h.2
 
 /-- the chunks of an entry list that is `PiecesTight`, each wrapped into a branch under its first key -/
-theorem chunks_tight (lo : Option Bytes) (key : Bytes) (ents : List (Bytes × Tree Bytes Ent))
+theorem chunks_tight (lo : Option Bytes) (key : Bytes) (ents : List (Bytes × Tree Bytes E))
     (idx : List Nat) (hpos : ∀ i ∈ idx, 0 < i) (h : PiecesTight lo ents) :
     PiecesTight lo ((cutAt ents idx 0).map (fun c => (firstKeyOr key c, Tree.branch 0 (Forest.ofList c)))) := by
   cases ents with
@@ -195,11 +195,11 @@ theorem chunks_tight (lo : Option Bytes) (key : Bytes) (ents : List (Bytes × Tr
       exact this
 
 theorem spillT_tight_aux :
-    (∀ (lo : Option Bytes) (t : Tree Bytes Ent), TightMT lo t → ∀ key : Bytes, (lo = none ∨ lo = some key) →
-      PiecesTight lo (spillT p pagesize hdr leafHdr branchHdr bmSize key t)) ∧
-    (∀ (lo : Option Bytes) (k : Bytes) (t : Tree Bytes Ent) (rest : Forest Bytes Ent), TightMF lo k t rest →
+    (∀ (lo : Option Bytes) (t : Tree Bytes E), TightMT lo t → ∀ key : Bytes, (lo = none ∨ lo = some key) →
+      PiecesTight lo (spillT p pagesize hdr leafHdr branchHdr esz key t)) ∧
+    (∀ (lo : Option Bytes) (k : Bytes) (t : Tree Bytes E) (rest : Forest Bytes E), TightMF lo k t rest →
       (lo = none ∨ lo = some k) →
-      PiecesTight lo (spillF p pagesize hdr leafHdr branchHdr bmSize (.cons k t rest))) := by
+      PiecesTight lo (spillF p pagesize hdr leafHdr branchHdr esz (.cons k t rest))) := by
   have hself : ∀ (lo : Option Bytes) (key : Bytes), (lo = none ∨ lo = some key) → sepLo lo key = lo := by
     intro lo key h
     rcases h with rfl | rfl <;> rfl
@@ -232,7 +232,7 @@ theorem spillT_tight_aux :
     refine chunks_tight lo key _ _ (splitIndexes_pos _ _ _ _ _) ?_
     have h1 := ih (sepLo_cases lo k)
     -- `PiecesTight (sepLo lo k)` and `PiecesTight lo` agree
-    generalize spillF p pagesize hdr leafHdr branchHdr bmSize (.cons k t rest) = ents at h1
+    generalize spillF p pagesize hdr leafHdr branchHdr esz (.cons k t rest) = ents at h1
     cases ents with
     | nil => trivial
     | cons a l' =>
@@ -251,21 +251,21 @@ theorem spillT_tight_aux :
     exact piecesTight_append lo _ _ (iht k hlo) (piecesTight_own_of_some k' _ h2)
 
 /-- T4: every piece written by `spill` is fully tight under the key its parent will hold for it -/
-theorem spillT_tight (key : Bytes) (lo : Option Bytes) (t : Tree Bytes Ent)
+theorem spillT_tight (key : Bytes) (lo : Option Bytes) (t : Tree Bytes E)
     (hlo : lo = none ∨ lo = some key) (h : TightMT lo t) :
-    PiecesTight lo (spillT p pagesize hdr leafHdr branchHdr bmSize key t) :=
-  (spillT_tight_aux p pagesize hdr leafHdr branchHdr bmSize).1 lo t h key hlo
+    PiecesTight lo (spillT p pagesize hdr leafHdr branchHdr esz key t) :=
+  (spillT_tight_aux p pagesize hdr leafHdr branchHdr esz).1 lo t h key hlo
 
 /-- T5: once the root has been written (it is no longer a materialised node), the tree is fully tight -/
-theorem spillRoot_tight (fuel : Nat) (t : Tree Bytes Ent) (h : TightMT none t)
-    (hdone : nodeMat (spillRoot p pagesize hdr leafHdr branchHdr bmSize fuel t).pid = false) :
-    TightT none (spillRoot p pagesize hdr leafHdr branchHdr bmSize fuel t) := by
+theorem spillRoot_tight (fuel : Nat) (t : Tree Bytes E) (h : TightMT none t)
+    (hdone : nodeMat (spillRoot p pagesize hdr leafHdr branchHdr esz fuel t).pid = false) :
+    TightT none (spillRoot p pagesize hdr leafHdr branchHdr esz fuel t) := by
   induction fuel generalizing t with
   | zero =>
     simp only [spillRoot] at hdone ⊢
     exact h.tight_of_unmat hdone
   | succ fuel ih =>
-    have hp := spillT_tight p pagesize hdr leafHdr branchHdr bmSize [] none t (Or.inl rfl) h
+    have hp := spillT_tight p pagesize hdr leafHdr branchHdr esz [] none t (Or.inl rfl) h
     unfold spillRoot at hdone ⊢
     split at hdone
     · exact h.tight_of_unmat hdone
@@ -274,7 +274,7 @@ theorem spillRoot_tight (fuel : Nat) (t : Tree Bytes Ent) (h : TightMT none t)
       exact hp.1
     · rename_i many hne1 hne2
       · refine ih _ ?_ hdone
-        generalize spillT p pagesize hdr leafHdr branchHdr bmSize [] t = many at hp hne1
+        generalize spillT p pagesize hdr leafHdr branchHdr esz [] t = many at hp hne1
         cases many with
         | nil => exact absurd rfl hne1
         | cons a rest =>
@@ -283,17 +283,17 @@ theorem spillRoot_tight (fuel : Nat) (t : Tree Bytes Ent) (h : TightMT none t)
 
 /-- T6 (termination): with at least two entries per split chunk the number of pieces at least halves
 in every round, so as much fuel as the root has pieces is enough to finish -/
-theorem spillRoot_terminates (hp : p.Valid) (h2 : 2 ≤ p.minKeysPerNode) (fuel : Nat) (t : Tree Bytes Ent)
-    (hf : (spillT p pagesize hdr leafHdr branchHdr bmSize [] t).length ≤ fuel) :
-    nodeMat (spillRoot p pagesize hdr leafHdr branchHdr bmSize fuel t).pid = false := by
+theorem spillRoot_terminates (hp : p.Valid) (h2 : 2 ≤ p.minKeysPerNode) (fuel : Nat) (t : Tree Bytes E)
+    (hf : (spillT p pagesize hdr leafHdr branchHdr esz [] t).length ≤ fuel) :
+    nodeMat (spillRoot p pagesize hdr leafHdr branchHdr esz fuel t).pid = false := by
   induction fuel generalizing t with
   | zero =>
-    have hne := spillT_ne_nil p pagesize hdr leafHdr branchHdr bmSize [] t
-    have : spillT p pagesize hdr leafHdr branchHdr bmSize [] t = [] := List.length_eq_zero_iff.1 (by omega)
+    have hne := spillT_ne_nil p pagesize hdr leafHdr branchHdr esz [] t
+    have : spillT p pagesize hdr leafHdr branchHdr esz [] t = [] := List.length_eq_zero_iff.1 (by omega)
     exact absurd this hne
   | succ fuel ih =>
-    have hne := spillT_ne_nil p pagesize hdr leafHdr branchHdr bmSize [] t
-    have hun := spillT_pieces_unmat p pagesize hdr leafHdr branchHdr bmSize [] t
+    have hne := spillT_ne_nil p pagesize hdr leafHdr branchHdr esz [] t
+    have hun := spillT_pieces_unmat p pagesize hdr leafHdr branchHdr esz [] t
     unfold spillRoot
     split
     · rename_i heq; exact absurd heq hne
@@ -302,13 +302,13 @@ theorem spillRoot_terminates (hp : p.Valid) (h2 : 2 ≤ p.minKeysPerNode) (fuel 
       exact hun (k, r) List.mem_cons_self
     · rename_i many hne1 hne2
       apply ih
-      generalize spillT p pagesize hdr leafHdr branchHdr bmSize [] t = many at hf hun hne1 hne2
+      generalize spillT p pagesize hdr leafHdr branchHdr esz [] t = many at hf hun hne1 hne2
       have hlen : 2 ≤ many.length := by
         match many, hne1, hne2 with
         | [], h1, _ => exact absurd rfl h1
         | [(k, r)], _, h2 => exact absurd rfl (h2 k r)
         | _ :: _ :: _, _, _ => simp
-      have := spillT_newRoot_length p pagesize hdr leafHdr branchHdr bmSize hp h2 [] many hun hlen
+      have := spillT_newRoot_length p pagesize hdr leafHdr branchHdr esz hp h2 [] many hun hlen
       omega
 
 end
